@@ -15,11 +15,12 @@ import (
 // C16 — TLV8 containers round-trip and fragment correctly.
 
 type c16Case struct {
-	Kind  string `json:"kind"` // "sets" | "parse"
-	Tags  []int  `json:"tags,omitempty"`
-	Lens  []int  `json:"lens,omitempty"`
-	Input []byte `json:"input,omitempty"`
-	Sub   string `json:"sub,omitempty"`
+	Kind       string `json:"kind"` // "sets" | "parse"
+	Tags       []int  `json:"tags,omitempty"`
+	Lens       []int  `json:"lens,omitempty"`
+	Input      []byte `json:"input,omitempty"`
+	Sub        string `json:"sub,omitempty"`
+	Interleave bool   `json:"interleave,omitempty"` // lookups between the sets; the caller reuses and wipes its value buffer
 }
 
 func pat(n int, seed byte) []byte {
@@ -62,8 +63,29 @@ func c16Sets(c *fw.Ctx, cas c16Case) {
 	var perr error
 	if p := guard(func() {
 		cont := util.NewTLV8Container()
+		scratch := make([]byte, 0, 70000)
 		for i, t := range cas.Tags {
 			v := pat(cas.Lens[i], byte(t*31+i))
+			if cas.Interleave {
+				// the caller builds every value in ONE scratch buffer which it reuses and wipes after the call, and it
+				// looks values up between the sets
+				scratch = append(scratch[:0], v...)
+				cont.SetBytes(byte(t), scratch)
+				for k := range scratch {
+					scratch[k] = 0xEE
+				}
+				for tt, want := range perTag {
+					if !bytes.Equal(cont.GetBytes(tt), want) {
+						c.Report("sets/get-between-sets/"+cls, fmt.Sprintf("GetBytes(%d) between two sets differs from what was set so far", tt), cas)
+					}
+				}
+				if len(v) > 0 {
+					exp = append(exp, refctl.Item{Tag: byte(t), Val: v})
+				}
+				perTag[byte(t)] = append(perTag[byte(t)], v...)
+				cls += lenClass(cas.Lens[i]) + ","
+				continue
+			}
 			cont.SetBytes(byte(t), v)
 			if len(v) > 0 {
 				exp = append(exp, refctl.Item{Tag: byte(t), Val: v})
@@ -214,6 +236,8 @@ func c16Run(c *fw.Ctx) {
 					c.Sample(cas)
 				}
 				c16Sets(c, cas)
+				cas.Interleave = true
+				c16Sets(c, cas)
 			}
 		}
 		if len(seq) == d {
@@ -292,7 +316,7 @@ func init() {
 		ID:    "C16",
 		Level: "exploration",
 		Rule: "exhaustive enumeration: (a) all tags 0..255 × all value lengths 0..1024 (+5 fixed longer lengths) set on hc's container, wire bytes compared with an independent TLV8 encoder and parsed back; " +
-			"(b) all Set sequences of length ≤3 (quick) / ≤4 (thorough) over 2 tags × lengths {0,1,254,255,256,510,511}; (c) all byte strings of length ≤2 (quick) / ≤3 (thorough) and every prefix / single-byte edit / deletion / insertion of 3 valid encodings as parser input. " +
+			"(b) all Set sequences of length ≤3 (quick) / ≤4 (thorough) over 2 tags × lengths {0,1,254,255,256,510,511}, each also with a lookup of every tag between the sets and with the caller reusing and wiping ONE value buffer after every Set; (c) all byte strings of length ≤2 (quick) / ≤3 (thorough) and every prefix / single-byte edit / deletion / insertion of 3 valid encodings as parser input. " +
 			"distinct_nontrivial = distinct (operation kind, length-class tuple) and parser outcome classes observed",
 		Run:    c16Run,
 		Budget: func(string) time.Duration { return 20 * time.Minute },
